@@ -137,10 +137,19 @@ func decimalString(r *rng.R, d dec.D) string {
 	if r.Chance(1, 5) {
 		digits = strings.Repeat("0", 1+r.Intn(3)) + digits
 	}
+	longZeros := r.Chance(1, 12)
+	if longZeros {
+		// the plain notation of a very small number: dozens of zeros before the
+		// first significant digit (they are part of the mantissa text, not of its value)
+		digits = strings.Repeat("0", 20+r.Intn(80)) + digits
+	}
 	n := len(digits)
 	j := n // digits after position j form the fraction
 	if r.Chance(2, 3) {
 		j = r.Intn(n + 1)
+	}
+	if longZeros && r.Bool() {
+		j = r.Intn(2) // 0.000...0ddd or .000...0ddd
 	}
 	exp := d.E + int64(n-j)
 	var sb strings.Builder
